@@ -44,6 +44,30 @@ func shapes(thorough bool) []*prog.Shape {
 			add(c)
 		}
 	}
+	// several sibling groups followed by further fields (the regenerated
+	// struct is rebuilt from the flattened schema by a cursor walk; this is
+	// where a cursor error shows)
+	for _, x := range "RO" {
+		for _, y := range "RO" {
+			for _, z := range "ro" {
+				for _, sig := range []string{
+					fmt.Sprintf("%c(r)%c(r)%c", x, y, z),
+					fmt.Sprintf("R(%c(r)%c(r)%c)", x, y, z),
+					fmt.Sprintf("R(%c(r)%c(r))%c", x, y, z),
+					fmt.Sprintf("%c(r)%c(o)O(%c)", x, y, z),
+					fmt.Sprintf("r%c(o)%c(r)%cr", x, y, z),
+				} {
+					c, err := prog.ParseSig(sig)
+					if err != nil {
+						panic(err)
+					}
+					k := len(out)
+					assign(c.Fields, &k)
+					add(c)
+				}
+			}
+		}
+	}
 	// every leaf type in every single-leaf context
 	for _, s := range prog.Enumerate(depth, 1, 3) {
 		if hasRepeated(s.Fields) {
